@@ -13,7 +13,9 @@ POOL = ["abc", "357", "ABC", "!@", "é", "ñü", "€", "😀", "日本", "aA1!"
         "xy\ufffd", "\ufffd", " ", "\t ", "\u00a0", "a b", "e\u0301", "𝓍𝒳", "a\u200db",
         # Latin-1 characters whose code points are the UTF-8 BYTES of other pool characters (é = C3 A9, € = E2 82 AC): a lookup that
         # goes byte by byte takes them for one another
-        "Ã", "©", "Ã©", "â¬", "Ãé"]
+        "Ã", "©", "Ã©", "â¬", "Ãé",
+        # strings that coincide with names the library uses internally for its sets
+        "Digits", "Uppers", "Lowers", "Symbols", "Dunno", "Custom 1"]
 
 DEFAULT_BUDGET = (200, 1, 1000000000)
 # T = 200 only with the default limit (the model decides it through the proved guard band); other limits with small T
